@@ -125,6 +125,37 @@ fn exec(w: &World, line: &str, target: &NetworkAddress) -> String {
             let range = U256::from_str_radix(r, 10).expect("range");
             ids_of(w, &get_peers_in_range(&peers, target, range))
         }
+        ["closegroup", c, me, rest @ ..] => {
+            // Network::{client_get_all_close_peers_in_range_or_close_group, node_get_closest_peers} over a handle whose
+            // command channel is answered here with exactly the listed peers
+            let peers = parse_peers(w, rest);
+            let me = w.peers[me.parse::<usize>().expect("me")];
+            let client = *c != "0";
+            let rt = tokio::runtime::Builder::new_current_thread().enable_all().build().expect("rt");
+            let target = target.clone();
+            rt.block_on(async move {
+                let (ntx, mut nrx) = tokio::sync::mpsc::channel(16);
+                let (ltx, _lrx) = tokio::sync::mpsc::channel(16);
+                let net = ant_networking::Network::new(ntx, ltx, me, Keypair::generate_ed25519());
+                let answer = tokio::spawn(async move {
+                    while let Some(cmd) = nrx.recv().await {
+                        if let ant_networking::verif::NetworkSwarmCmd::GetClosestPeersToAddressFromNetwork { sender, .. } = cmd {
+                            let _ = sender.send(peers.clone());
+                        }
+                    }
+                });
+                let res = if client {
+                    net.client_get_all_close_peers_in_range_or_close_group(&target).await
+                } else {
+                    net.node_get_closest_peers(&target).await
+                };
+                answer.abort();
+                match res {
+                    Ok(v) => ids_of(w, &v),
+                    Err(_) => "err notenough".into(),
+                }
+            })
+        }
         ["closest", n, r, rest @ ..] => {
             let peers: Vec<(PeerId, Vec<libp2p::Multiaddr>)> = parse_peers(w, rest).into_iter().map(|p| (p, vec![])).collect();
             let num = if *n == "-" { None } else { Some(n.parse::<usize>().expect("n")) };
@@ -187,6 +218,24 @@ fn oracle(line: &str, r: &str, out: &mut Out) {
             let expect: Vec<String> = rest.iter().filter_map(|t| { let (i, x) = t.split_once(':').expect("p"); (BigUint::parse_bytes(x.as_bytes(), 10).expect("d") <= range).then(|| i.to_string()) }).collect();
             if got != expect {
                 out.oracle_fail("range-filter", line, &format!("got {got:?}, peers within the range are {expect:?}"));
+            }
+        }
+        ["closegroup", c, me, rest @ ..] => {
+            // the caller's own id never counts for a client; 7 nearest others ascending; too few (<5) is an error
+            let mut d = dists(rest);
+            if *c != "0" {
+                d.retain(|(_, i)| i != me);
+            }
+            if d.len() < 5 {
+                if r != "err notenough" {
+                    out.oracle_fail("close-group-too-few-reported", line, &format!("{} other peers known but got {r}", d.len()));
+                }
+                return;
+            }
+            d.sort_by(|a, b| a.0.cmp(&b.0));
+            let expect: Vec<String> = d.iter().take(7).map(|(_, i)| i.clone()).collect();
+            if got != expect {
+                out.oracle_fail("close-group-nearest-others", line, &format!("got {got:?}, the nearest other peers ascending are {expect:?}"));
             }
         }
         ["closest", n, range, rest @ ..] => {
@@ -297,7 +346,12 @@ fn main() {
                 }
                 let bound = rng.pick(&bounds).clone();
                 let count = rng.below(npeers as u64 + 3);
-                match rng.below(4) {
+                match rng.below(5) {
+                    4 => {
+                        // self among the answers at a seeded position (often among the nearest), or absent
+                        let me = if !idx.is_empty() && rng.chance(3, 4) { *rng.pick(&idx) } else { rng.below(w.peers.len() as u64) as usize };
+                        run(&w, &format!("closegroup {} {me} {pl}", rng.below(2)), &target, &mut out)
+                    }
                     0 => run(&w, &format!("sort {count} {pl}"), &target, &mut out),
                     1 => run(&w, &format!("inrange {bound} {pl}"), &target, &mut out),
                     2 => run(&w, &format!("closest {count} - {pl}"), &target, &mut out),
